@@ -38,6 +38,7 @@ type CompState struct {
 	Closed bool
 	err    error
 	wrote  bool
+	block  int64 // compression block size (pgzip.SetConcurrency): the real output depends on it
 }
 
 var (
@@ -88,7 +89,11 @@ func (st *CompState) close() error {
 	out := make([]byte, 0, n+15)
 	out = append(out, 0x1f, 0x8b, st.Kind, byte(n>>24), byte(n>>16), byte(n>>8), byte(n))
 	out = append(out, st.buf...)
-	out = append(out, 0, 0, 0, 0, 0, 0, 0, 0)
+	// trailer: the block size a parallel compressor was configured with (block
+	// boundaries shape the real stream once the input exceeds one block)
+	tr := make([]byte, 8)
+	zz.Put64(tr, 0, st.block)
+	out = append(out, tr...)
 	return st.emit(out)
 }
 
@@ -121,6 +126,15 @@ func PgzipNewWriter(w io.Writer) *pgzip.Writer {
 	z := new(pgzip.Writer)
 	newComp(z, w, KindGzip)
 	return z
+}
+
+//verif:replace (*github.com/klauspost/pgzip.Writer).SetConcurrency
+func PgzipSetConcurrency(z *pgzip.Writer, blockSize, blocks int) error {
+	if blockSize <= 0 || blocks <= 0 {
+		return fmt.Errorf("gzip: invalid concurrency")
+	}
+	compStates[z].block = int64(blockSize)
+	return nil
 }
 
 //verif:replace (*github.com/klauspost/pgzip.Writer).Write
